@@ -256,9 +256,22 @@ def check_many(pairs_, le, use_diff):
     """One file, one section per (codec, spelling); writer bytes ==
     reference, reader returns every text."""
     calls = []
-    for c, sp in pairs_:
+    for idx, (c, sp) in enumerate(pairs_):
         ch = probe_char(c) or 'y'
         text = 'x' + ch + ('\r\n' if le == 'dos' else '\n') + 'second'
+        if idx % 2:
+            # declared on a container, inherited by its sections; the next
+            # sibling declares nothing and is back to the main encoding
+            calls.append(['change', sp])
+            calls.append(['preamble', text, None, 2, le, None])
+            calls.append(['file', None])
+            calls.append(['meta', {'k': 'v'}, None])
+            calls.append(['change', None])
+            calls.append(['preamble', 'sibling é' + text[2:], None, 2, le,
+                          None])
+            calls.append(['file', None])
+            calls.append(['meta', {'k': 'w'}, None])
+            continue
         calls.append(['change', None])
         calls.append(['preamble', text, sp, 2, le, None])
         calls.append(['file', None])
